@@ -682,7 +682,7 @@ class GriffeLoader:
             return module
         parent_module = module
         parents = list(subpath.parents)
-        if subpath.stem == "__init__":
+        if subpath.name.split(".", 1)[0] == "__init__":
             parents.pop(0)
         for parent_offset, parent_part in enumerate(parent_parts, 2):
             module_filepath = parents[len(subparts) - parent_offset]
